@@ -12,8 +12,12 @@ import copy
 import z3
 
 from . import values as V
-from .values import (Unsupported, SymArr, SymList, Obj, Range, Cx, FuncRef, ClassRef, ModRef, Builtin,
+from .values import (Unsupported, SymArr, SymList, Obj, Range, Cx, FuncRef, ClassRef, ModRef, Builtin, OptDict,
                      Opaque, is_z3, arith, compare, band, bor, bnot, ite, implies, fresh)
+
+
+_MISSING = object()
+_NOKEY = object()        # a symbolic key proved different from every key that can be present
 
 
 class MergeAbort(Exception):
@@ -265,6 +269,11 @@ class Exec:
                 _, d, old = e
                 d.clear()
                 d.update(old)
+            elif e[0] == "optdict":
+                _, d, old, maybe = e
+                d.clear()
+                d.update(old)
+                d.maybe = maybe
 
     # ---------------------------------------------------------------------------------------------
     # function execution
@@ -452,6 +461,7 @@ class Exec:
                 base = self.eval(t.value)
                 key = self.eval_index(t.slice)
                 if isinstance(base, dict):
+                    self.resolve_opt(base, key)
                     key = self.concrete_key(base, key)
                     if key not in base:
                         raise RaiseSignal("KeyError", line=st.lineno)
@@ -701,6 +711,7 @@ class Exec:
             base[idx] = v
             return
         if isinstance(base, dict):
+            self.resolve_opt(base, idx)
             key = self.concrete_key(base, idx, for_store=True)
             if self.guard is not True:
                 old = base.get(key, _MISSING)
@@ -740,6 +751,29 @@ class Exec:
         if self.write_log is not None:
             self.write_log.append((base, (idx,), self.guard))
         base.set(idx, v, self.guard)
+
+    def resolve_opt(self, d, key=_MISSING):
+        """presence of the possibly-absent key(s) of an OptDict is decided by a case split when first touched"""
+        if not isinstance(d, OptDict) or not d.maybe:
+            return
+        if key is _MISSING or is_z3(key):
+            keys = list(d.maybe)
+        else:
+            try:
+                keys = [key] if key in d.maybe else []
+            except TypeError:
+                keys = []
+        for k in keys:
+            if self.guard is not True:
+                g, p_ = self.guard, d.maybe[k]
+                if z3.is_expr(g) and z3.is_expr(p_) and (g.eq(p_) or (z3.is_and(g) and any(c.eq(p_) for c in g.children()))):
+                    continue        # executing under the assumption that this key is present: nothing to decide
+                raise MergeAbort("presence of a dict key decided under guard")
+            if self.undo is not None:
+                self.undo.append(("optdict", d, dict(d), dict(d.maybe)))
+            p = d.maybe.pop(k)
+            if not self.branch(p):
+                dict.__delitem__(d, k)
 
     def concrete_key(self, d, key, for_store=False):
         """dict key: concrete, or a symbolic string/int resolved by case split over the present keys"""
@@ -977,6 +1011,7 @@ class Exec:
                 raise RaiseSignal("IndexError", line=line)
             return base[idx]
         if isinstance(base, dict):
+            self.resolve_opt(base, idx)
             key = self.concrete_key(base, idx)
             if key not in base:
                 raise RaiseSignal("KeyError", line=line)
@@ -1125,6 +1160,7 @@ class Exec:
 
     def contains(self, container, item, line=None):
         if isinstance(container, dict):
+            self.resolve_opt(container, item)
             if is_z3(item):
                 return bor(*[compare("==", item, k) for k in container.keys()
                              if isinstance(k, (str, int)) and V.sort_of(k) == V.sort_of(item)])
@@ -1179,6 +1215,7 @@ class Exec:
         if isinstance(it, (list, tuple)):
             return list(it)
         if isinstance(it, dict):
+            self.resolve_opt(it)
             return list(it.keys())
         if isinstance(it, SymArr) and not is_z3(it.shape[0]):
             return [self.getitem(it, k, line) for k in range(it.shape[0])]
@@ -1274,8 +1311,6 @@ class Exec:
         return obj
 
 
-_MISSING = object()
-_NOKEY = object()        # a symbolic key proved different from every key that can be present
 
 
 class DictView:
